@@ -637,7 +637,10 @@ static void mutate_pair(cbor_item_t* it, rnode* sh, struct vh_rng* r, int depth)
           uint8_t nb = (uint8_t)vh_rand(r);
           h[at] = nb; sh->bytes[at] = nb;
           /* re-attach the (same) block so that derived data such as the code point count follows the edit */
-          size_t nl = vh_below(r, 3) ? sh->len : sh->len - 1;
+          /* ... and sometimes a shorter length: by one byte, to half, to one byte, to nothing (in-place truncation of an
+           * item that may already sit inside a container or a chunked string) */
+          size_t nl = sh->len;
+          switch (vh_below(r, 7)) { case 3: nl = sh->len - 1; break; case 4: nl = sh->len / 2; break; case 5: nl = sh->len > 1 ? 1 : 0; break; case 6: nl = 0; break; default: break; }
           if (sh->kind == R_TEXT) cbor_string_set_handle(it, h, nl); else cbor_bytestring_set_handle(it, h, nl);
           sh->len = nl;
           g_pair_mutations++;
